@@ -458,10 +458,10 @@ impl World {
         let mut pk = self.ds[d].ctl.take_egress();
         // An IPv4 multicast leaves on the interface selected on the shared socket
         // (IP_MULTICAST_IF as last set), whatever interface the caller had in mind.
-        let table = self.ds[d].ctl.get_intfs();
         for p in pk.iter_mut() {
             if let (true, Some(sel)) = (p.dst.is_ipv4() && p.dst.ip().is_multicast(), p.mcast_if_v4) {
                 if p.src_ip != Some(IpAddr::V4(sel)) {
+                    let table = self.ds[d].ctl.get_intfs();
                     if let Some(eff) = table.iter().find(|i| i.ip == IpAddr::V4(sel)) {
                         self.misrouted += 1;
                         p.if_index = Some(eff.index);
